@@ -857,6 +857,7 @@ Interval<To_Boundary, To_Info>::mul_assign(const From1& x, const From2& y) {
     if (gt(LOWER, to_lower, to_info, LOWER, tmp, tmp_info)) {
       // Note: the boundary information (openness, infinity) of the
       // selected product has to be copied along with its value.
+      to_info.clear_boundary_properties(LOWER);
       Boundary_NS::assign(LOWER, to_lower, to_info, LOWER, tmp, tmp_info);
       rl = tmp_r;
     }
@@ -868,6 +869,7 @@ Interval<To_Boundary, To_Info>::mul_assign(const From1& x, const From2& y) {
                                  LOWER, f_lower(x), f_info(x),
                                  LOWER, f_lower(y), f_info(y));
     if (lt(UPPER, upper(), to_info, UPPER, tmp, tmp_info)) {
+      to_info.clear_boundary_properties(UPPER);
       Boundary_NS::assign(UPPER, upper(), to_info, UPPER, tmp, tmp_info);
       ru = tmp_r;
     }
